@@ -53,7 +53,7 @@ struct VecSink {
 }
 impl uv::FrameSink for VecSink {
     fn send(&mut self, frame_data: &[u8]) {
-        self.frames.push(frame_data.into());
+        in_callback(|| self.frames.push(frame_data.into()));
     }
 }
 
@@ -62,7 +62,7 @@ struct PktSink {
 }
 impl uv::PacketSink for PktSink {
     fn send(&mut self, packet_data: Box<[u8]>) {
-        self.pkts.push(packet_data);
+        in_callback(|| self.pkts.push(packet_data));
     }
 }
 
